@@ -70,7 +70,7 @@ import asyncio
 import errno
 import socket
 
-from worlds.common import TICK, simulate
+from worlds.common import simulate
 
 NAME = 'prims.retry'
 RULE = ('1..3 sequential retry calls; scripted callable raising 0..12 (thorough 0..20) exceptions drawn from labelled '
